@@ -44,6 +44,15 @@ def effective_offset(tm):
     return off
 
 
+def _fine_dyadic(p):
+    for v in (p._hour_of_day, p._minute_of_hour, p._second_of_minute):
+        if v is not None:
+            den = F(v).denominator
+            if den > 4096 or den & (den - 1):
+                return False
+    return True
+
+
 def install(ctx, repo, probes):
     D, TZM = repo.data, repo.timezone
     def now():
@@ -143,6 +152,16 @@ def install(ctx, repo, probes):
                                      and key[6] % 60)
                     if true.denominator == 1 and not hform_minutes:
                         ok = res == str(int(true))
+                    elif _fine_dyadic(self) and not hform_minutes:
+                        # every field is a small binary fraction: the
+                        # library's float arithmetic is exact, so the whole
+                        # number of seconds is exact too (the fraction is
+                        # dropped; either direction for negative counts)
+                        ok = res in (str(int(true // 1)),
+                                     str(-int(-true // 1)) if true < 0
+                                     else str(int(true // 1)))
+                        if ok:
+                            ctx.cls("to_epoch/binary-fraction")
                     else:
                         # tolerance regime (fractional fields, or a decimal-
                         # hour point re-zoned by minutes): a neighbouring
@@ -167,7 +186,7 @@ def install(ctx, repo, probes):
     probes.set(TP, "seconds_since_unix_epoch", property(monitored))
     for m in R.MODES:
         ctx.target("mode/" + m)
-    ctx.target("local/neg", "local/pos", "local/zero", "local/neg/zero-hour",
+    ctx.target("to_epoch/binary-fraction", "local/neg", "local/pos", "local/zero", "local/neg/zero-hour",
                "local/pos/zero-hour", "format/normal", "format/reduced",
                "format/extended", "from_epoch/utc/neg",
                "from_epoch/utc/nonneg", "from_epoch/local/neg",
@@ -187,7 +206,7 @@ def make_mock(std, alt, daylight, isdst):
 
 def run_case(ctx, repo, case):
     MODE = case.get("mode", "gregorian")
-    repo.set_mode(MODE)
+    repo.set_mode(MODE, case)
     try:
         _run_case(ctx, repo, case, MODE)
     finally:
@@ -408,6 +427,26 @@ def workload(ctx, repo):
                         gen.rand_year(rng, -3000, 12000)))
         mode = R.MODES[i % 4] if i % 3 == 0 else "gregorian"
         kw = gen.rand_tp(rng, mode, year=y, integral=(i % 5 != 0))
+        if i % 7 == 3:
+            # a decimal form whose fraction is binary (exact in floats) and
+            # leaves a sub-second part
+            for key in ("hour_of_day_decimal", "minute_of_hour_decimal",
+                        "second_of_minute_decimal", "minute_of_hour",
+                        "second_of_minute"):
+                kw.pop(key, None)
+            if kw.get("hour_of_day") == 24:
+                kw["hour_of_day"] = 23
+            form = rng.choice(("h", "hm", "hmsf"))
+            if form == "h":
+                kw["hour_of_day_decimal"] = rng.randrange(1, 4096) / 4096.0
+            elif form == "hm":
+                kw["minute_of_hour"] = rng.randrange(60)
+                kw["minute_of_hour_decimal"] = rng.randrange(1, 128) / 128.0
+            else:
+                kw["minute_of_hour"] = rng.randrange(60)
+                kw["second_of_minute"] = rng.randrange(60)
+                kw["second_of_minute_decimal"] = rng.choice(
+                    (0.5, 0.25, 0.75, 0.875, 0.96875))
         case = {"op": "to", "p": kw, "mode": mode}
         ctx.case = case
         if i % 999 == 0:
